@@ -22,11 +22,11 @@ EXPLANATION = (
 
 SCOPE_EXCL = re.compile(r'jerasure|shss|phazrio|alg_sig')
 
-def run_r16a(ctx, P, r, only_fn=None):
+def run_r16a(ctx, P, r, only_fn=None, every_backend=False):
     O = own.get(P)
     n = 0
     for name, fn in sorted(P.fns.items()):
-        if SCOPE_EXCL.search(fn.mod.src) or (only_fn and name not in only_fn):
+        if (SCOPE_EXCL.search(fn.mod.src) and not every_backend) or (only_fn and name not in only_fn):
             continue
         for site, kind, slot in O.alloc_roots(fn):
             n += 1
@@ -333,6 +333,45 @@ def run(ctx):
                        msg=f'{role}[{normp(idx) if idx is not None else "?"}] is freed under bit {found} over {trips} iterations: must be bit '
                            f'{"index" if role == "data" else "index + k"} for index 0 .. {wantb}-1')
     r.require_min(6)
+
+    # ---------------- R16i payload views are not owners
+    r = ctx.rule('R16i', 'the payload pointer arrays built by get_data_ptr_array_from_fragments are views: none of their entries is ever handed to a deallocator',
+                 'they point into fragments owned by the caller or tracked by realloc_bm: releasing one through the view frees a buffer that the exit path (or the caller) frees again')
+    nv = 0
+    for fname in ('liberasurecode_decode', 'liberasurecode_reconstruct_fragment'):
+        vf = P.fn(fname)
+        views = {strip_ptr_casts(vf, c_.ops[0]) for c_ in vf.insts() if c_.op == 'call' and c_.callee == '@get_data_ptr_array_from_fragments'}
+        if not views:
+            raise AnalysisBroken(f'anchor vanished: {fname} builds no payload pointer arrays')
+        Av, _ = derived_pointers(vf, sorted(views))
+        # pointers into the view arrays may be chosen between them (`is_data ? &data_segments[i] : &parity_segments[i - k]`)
+        grew = True
+        while grew:
+            grew = False
+            for i in vf.insts():
+                if i.res and i.res not in Av and i.op in ('select', 'phi', 'getelementptr', 'bitcast'):
+                    ops_ = i.ops[1:] if i.op == 'select' else ([v for v, _ in i.incoming] if i.op == 'phi' else i.ops[:1])
+                    if any(o in Av for o in ops_):
+                        Av.add(i.res); grew = True
+        elems = {i.res for i in vf.insts() if i.op == 'load' and i.ops[0] in Av and i.ty == 'i8*'}
+        Ev, _ = derived_pointers(vf, sorted(elems)) if elems else (set(), None)
+        nv += len(views)
+        bad = None
+        for c_ in vf.insts():
+            if c_.op != 'call' or not c_.callee:
+                continue
+            frees = c_.callee in ('@free', '@free_fragment_buffer', '@check_and_free_buffer', '@realloc')
+            if frees and any(isinstance(o, str) and strip_ptr_casts(vf, o) in Ev | elems for o in c_.ops):
+                bad = c_
+                break
+        inst = f'{fname}: entries of the {len(views)} payload pointer arrays are never released'
+        if bad is None:
+            r.ok(inst, func=vf.name, loc=vf.mod.src)
+        else:
+            r.fail(inst, func=vf.name, sig=f'{bad.callee[1:]} on an entry of a payload pointer array', loc=bad.loc,
+                   msg=f'{fname} hands an entry of a payload pointer array to {bad.callee[1:]} (line {bad.line}): the fragment it points into is owned by the caller or '
+                       'released under its realloc_bm bit on the way out - it is freed twice')
+    r.require_min(2)
 
     # ---------------- R16c
     r = ctx.rule('R16c', 'encode_cleanup frees k data and m parity fragments and both arrays; decode_cleanup frees its argument',
